@@ -30,7 +30,7 @@ def main():
             print(f"{name}: SUITE FAILS WITH PATCH\n{o[-600:]}"); return 4
         alarms = {}
         for cid in [f"C{i:02d}" for i in range(1, 21)]:
-            p = subprocess.run(["/verif/bin/crscheck", "-property", cid, "-repo", tmp], stdout=subprocess.PIPE, stderr=subprocess.STDOUT, env=ENV)
+            p = subprocess.run([os.environ.get("CRS_BIN", "/verif/bin/crscheck"), "-property", cid, "-repo", tmp], stdout=subprocess.PIPE, stderr=subprocess.STDOUT, env=ENV)
             if p.returncode != 0:
                 lines = [l.replace(tmp + "/", "") for l in p.stdout.decode().splitlines() if ("] " in l and " — " in l) or l.startswith("ERROR")]
                 alarms[cid] = lines[:8] or ["exit %d" % p.returncode]
